@@ -76,6 +76,13 @@ Definition SpecAccept (b : list N) (peer : ipaddr) : Prop := spec_accept b peer 
 Definition spec_packet (b : list N) : list N :=
   firstn (N.to_nat (N.min (spec_hdr_len b + spec_payload_len b) (len b))) b.
 
+(** the datagram carries an SCMP error message: next header SCMP (202), a non-empty payload
+    inside the datagram whose first byte -- the SCMP type -- is below 128 (types 128.. are
+    informational).  An SCMP error message is never answered with an SCMP error message. *)
+Definition spec_is_scmp_error (b : list N) : bool :=
+  (spec_next_hdr b =? 202) && (spec_hdr_len b <? len b) && (0 <? spec_payload_len b) &&
+  (byte b (spec_hdr_len b) <? 128).
+
 (** * the reply *)
 Definition SCMP_MAX : N := 1232.       (* SCMP error message incl. SCION header: at most 1232 bytes *)
 Definition SEND_BUF : N := 9216.       (* the gateway's jumbo send buffer *)
